@@ -602,6 +602,18 @@ do_retrieve(void)
   }
 
   if (rv == MORE) {
+    if (rb->curr_pos.offset < head_offs) {
+      /* While this job was running, the sequential decoder moved past our
+         position and released the input blocks we would need next.  That can
+         happen only to a speculative job started at a mis-recognized bit
+         pattern, so drop it, like advance() does for queued jobs. */
+      Trace(("Retriever fell behind the parser"));
+      decoder_free(&rb->ds);
+      free(rb);
+      work_units++;
+      check_invariants();
+      return;
+    }
     Trace(("Retriever blocked waiting for input"));
     enqueue(retr_q, rb);
     check_invariants();
